@@ -4,8 +4,11 @@ import pty, os, time, select, re, tempfile, shutil
 PROMPT = b"btcdeb> "
 ANSI = re.compile(rb"\x1b\[[0-9;?]*[a-zA-Z]")
 
-def repl(binary, argv, cmds, timeout=5.0, env=None):
+def repl(binary, argv, cmds, timeout=5.0, env=None, mkdirs=()):
+    """mkdirs: directories to create inside the session's working directory first (e.g. '.btcdeb_history': a history file that cannot be opened)"""
     cwd = tempfile.mkdtemp(prefix="btcdeb-pty-", dir=os.environ.get("VERIF_SCRATCH", "/var/tmp"))
+    for d in mkdirs:
+        os.makedirs(os.path.join(cwd, d), exist_ok=True)
     try:
         pid, fd = pty.fork()
         if pid == 0:
